@@ -54,7 +54,7 @@ NAMES = [
     b"refs/heads/a/b/c",  # three levels: a refused/failed operation on it leaves nested empty directories where a and a/b go
 ]
 SYMSRC = [b"refs/heads/sym", b"HEAD", b"refs/heads/sym2", b"refs/remotes/o/HEAD"]
-SYMDST = [b"refs/heads/a", b"refs/heads/b", b"refs/heads/sym", b"refs/heads/sym2", b"refs/tags/t", b"refs/heads/a/b"]
+SYMDST = [b"refs/heads/a", b"refs/heads/b", b"refs/heads/sym", b"refs/heads/sym2", b"refs/tags/t", b"refs/heads/a/b", b"HEAD"]  # HEAD as a target: chains of four symbolic refs (o/HEAD -> HEAD -> sym -> sym2 -> a) become possible
 PROBE = NAMES + [b"refs/heads/none"]
 BASES = [b"refs/heads", b"refs/heads/", b"refs/tags", b"refs/remotes/o"]
 TAGREF = b"refs/tags/t"
@@ -991,6 +991,17 @@ def directed_sequences(backend):
                         if packer[0] == "git-pack" and not BACKENDS[backend].has_git:
                             continue
                         out.append([("setitem", 0, b"refs/heads/b", 1), ("setitem", 0, name, 0), packer, ("symref", 0, name, dst), removal, ("reopen", 0), ("add", 0, name, 3)])
+    # chains of two to four symbolic refs ending in a direct ref (git follows up to five links): read, list, write and
+    # conditionally write through the head of the chain
+    links = [b"refs/remotes/o/HEAD", b"HEAD", b"refs/heads/sym", b"refs/heads/sym2"]
+    for k in (2, 3, 4):
+        chain = links[4 - k:] + [b"refs/heads/b"]
+        mk = [("setitem", 0, b"refs/heads/b", 0)] + [("symref", 0, chain[i], chain[i + 1]) for i in reversed(range(k))]
+        for tail in ([("setitem", 1, chain[0], 2)], [("set", 1, chain[0], "cur", 2)], [("set", 1, chain[0], "v0", 1)], [("add", 1, chain[0], 2)],
+                     [("del", 0, b"refs/heads/b"), ("add", 1, chain[0], 2)], [("pack", 0, 1), ("setitem", 1, chain[0], 3)]):
+            if tail[0][0] == "pack" and not BACKENDS[backend].has_pack:
+                continue
+            out.append(mk + [("reopen", 0)] + tail + [("reopen", 0), ("setitem", 0, chain[-1], 1)])
     return out
 
 
